@@ -1,9 +1,11 @@
 -- Root of the `EdbVerif` library: models, lemmas and property theorems.
+import EdbVerif.Props.C01
 import EdbVerif.Props.C04
 import EdbVerif.Props.C05
 import EdbVerif.Props.C06
 import EdbVerif.Props.C07
 import EdbVerif.Props.C09
+import EdbVerif.Props.C12
 import EdbVerif.Props.C14
 import EdbVerif.Props.C15
 import EdbVerif.Props.C16
